@@ -20,6 +20,10 @@ package keeper
 //@   modifies store(ctx, "dogfood"), get(ctx, "delegation", holdKey(recordKey))
 //@   before[C16.aus.hold]  IncrementUndelegationHoldCount requires arg_recordKey == recordKey &&
 //@        (res_IsOperatorRemovingKeyFromChainID_0 || (res_GetOperatorConsKeyForChainID_0 && res_GetExocoreValidator_1))
+// C03 (an undelegation within the staker's position is accepted whatever the operator's opt-in or key state): the epoch
+// an undelegation is queued for is a real epoch - in the block that completes an opt-out the finish epoch has already
+// been consumed (-1), and the hook must not ask the store for the queue of epoch -1 (a nil key: the request panics).
+//@   before[C03.aus.queued] AppendUndelegationToMature requires res_IsOperatorRemovingKeyFromChainID_0 ==> arg_epoch >= 0
 //@   before[C16.aus.epoch] AppendUndelegationToMature requires arg_recordKey == recordKey && arg_epoch ==
 //@        ite(res_IsOperatorRemovingKeyFromChainID_0, res_GetOperatorOptOutFinishEpoch_0, res_GetUnbondingCompletionEpoch_0)
 //@   before[C16.aus.lookup] SetUndelegationMaturityEpoch requires arg_recordKey == recordKey && arg_epoch ==
